@@ -140,6 +140,33 @@ def small_alphabet_safety_job(name, N):
     j.bounded_note = 'exhaustive over all NUL-terminated strings of at most %d bytes over the alphabet {%s}' % (N, ' '.join(chars))
     return j
 
+
+# ---- unbounded in the loop: isIntString under a loop contract.  The input is a static array of OSMT_CAP bytes with arbitrary contents and a NUL at an arbitrary position
+# (capacity-bounded, therefore still reported as bounded -- but the function's loop is closed by its invariant, not by unwinding: the harness loop that builds the
+# array and finds the first non-digit is the only thing unwound).
+H_INT_LC = '''int nondet_int(void);
+void harness(void) {
+  h_len = nondet_int(); __CPROVER_assume(h_len >= 0 && h_len <= OSMT_CAP);
+  g_w = -1;
+  t_int first = 0;
+  for (int k = 0; k < OSMT_CAP; k++) {
+    h_s[k] = nondet_char();
+    if (k < h_len) __CPROVER_assume(h_s[k] != 0);
+    if (k == 0 && h_len > 0 && h_s[0] == '-') first = 1;
+    if (k >= first && k < h_len && g_w < 0 && !is_dig(h_s[k])) g_w = k;   /* position of the first character that is not a digit, if any */
+  }
+  h_s[h_len] = 0;
+  t_bool r = isIntString(h_s);
+  __CPROVER_assert(r == (h_len > first && g_w < 0), "isIntString(s) <=> s matches -?[0-9]+ (loop closed by its invariant)");
+  OSMT_REACH("return");
+}
+'''
+def int_loop_contract_job(cap=1024):
+    return Job('isIntString.loopcontract.cap%d' % cap, TU, 'opensmt::isIntString', tier='R', header='contracts/C16/strconv.h', harness=H_INT_LC, enforce=False, loop_contracts=True, pre_includes=(),
+               stubs=('opensmt::normalize',), defines=('OSMT_N 4', 'OSMT_CAP %d' % cap, 'C16_INT_LC'), unwindset=('harness.0:%d' % (cap + 2),), min_obligations=3, timeout=1200, weight=15,
+               bounded_note='loop closed by a loop contract (invariant + variant); input: every NUL-terminated byte string that fits a buffer of %d bytes' % cap,
+               proves='isIntString(s) <=> s in -?[0-9]+, for a string of any length within the buffer; no read outside the buffer')
+
 def jobs(tier, N=None):
     if os.environ.get('C16_TRY_SAFE'):
         nm, n = os.environ['C16_TRY_SAFE'].split(','); return [small_alphabet_safety_job(nm, int(n))]
@@ -147,7 +174,7 @@ def jobs(tier, N=None):
         nm, n = os.environ['C16_TRY_ALPHA'].split(','); return [small_alphabet_job(nm, int(n))]
     N = N or (4 if tier == 'quick' else 5)
     NC = 16 if tier == 'quick' else 32      # the classifiers have no arithmetic: all byte strings of 16 / 32 bytes take seconds (the reference reader accumulates in 128 bits: 64 digits would wrap)
-    return [job('isIntString', 'opensmt::isIntString', H_INT, NC), job('isRealString', 'opensmt::isRealString', H_REAL, NC),
+    return [int_loop_contract_job(1024), job('isIntString', 'opensmt::isIntString', H_INT, NC), job('isRealString', 'opensmt::isRealString', H_REAL, NC),
             job('stringToRational', 'opensmt::stringToRational', H_CONV, N, weight=20),
             # (longer literals were tried and are NOT registered: all strings of 6 bytes exhaust MiniSat's and cadical's memory; one fixed shape d.ddddd of 7 bytes, with a static conversion
             #  buffer and shift-add value arithmetic, still does not finish in 30 min)
